@@ -131,10 +131,7 @@ Print Assumptions C18_same_decoding_request_line.
 (* and the prefix rule of _handle_request behind a reverse proxy is that of the other two sites. *)
 Theorem C18_same_prefix_rule : forall base pathinfo, nonempty base = true ->
   request_path true base pathinfo =
-  match strip_base base (sanitize_path pathinfo) with
-  | DOk r => if nonempty r then r else [slash]
-  | _ => sanitize_path pathinfo
-  end.
+  match strip_base base (sanitize_path pathinfo) with DOk r => r | _ => sanitize_path pathinfo end.
 Proof. exact c18_request_path_strip. Qed.
 Print Assumptions C18_same_prefix_rule.
 
@@ -157,7 +154,9 @@ Theorem C18_witness_prefix_boundary :
   request_path_legacy true (str "/radicale") (str "/radicale2/cal/") = str "2/cal/"
   /\ request_path true (str "/radicale") (str "/radicale2/cal/") = str "/radicale2/cal/"
   /\ request_path_legacy true (str "/radicale") (str "/radicale") = []
-  /\ request_path true (str "/radicale") (str "/radicale") = str "/".
+  /\ request_path true (str "/radicale") (str "/radicale") = str "/"
+  /\ decode_multiget_legacy (str "/radicale") (str "http://h/radicale") = DOk []
+  /\ decode_multiget (str "/radicale") (str "http://h/radicale") = DOk (str "/").
 Proof. exact c18_witness_prefix_boundary. Qed.
 Print Assumptions C18_witness_prefix_boundary.
 
